@@ -115,10 +115,24 @@ pub fn strategy(with_close: bool) -> BoxedStrategy<IterCase> {
         schedule_strategy(200),
         prop_oneof![1 => Just(vec![]), 1 => vec(0u8..3, 1..5)],
         prop_oneof![3 => Just(0u8), 1 => 1u8..4],
-        prop::bool::weighted(0.35),
+        prop::bool::weighted(0.5),
         prop_oneof![2 => Just(1u8), 1 => Just(2u8), 2 => Just(4u8), 1 => Just(8u8)],
     )
-        .prop_map(|(exf, consumer, polls, init, others, nested, schedule, late, failed_ctor, handoff, stretch)| {
+        .prop_map(|(exf, consumer, polls, mut init, mut others, nested, schedule, late, failed_ctor, handoff, stretch)| {
+            // one case in eight: two threads add the same, not yet watched signal at the same time
+            // (derived from values already drawn, so that shrinking stays monotone)
+            if schedule.len() % 8 == 3 {
+                let sig = polls % 3;
+                init.retain(|s| *s % 3 != sig);
+                if init.is_empty() {
+                    init.push((sig + 1) % 3);
+                }
+                if others.len() < 2 {
+                    others.push(vec![]);
+                }
+                others[0].insert(0, IOp::AddSignal { sig });
+                others[1].insert(0, IOp::AddSignal { sig });
+            }
             let n = others.len() + 1;
             let nested = nested.into_iter().map(|(t, at, sig, on)| INested { thread: t % n, at, sig, on }).collect();
             IterCase { exf, consumer, polls, init, others, nested, schedule, late, failed_ctor, handoff, stretch }
@@ -189,7 +203,47 @@ fn yielded<R: Rec>(r: &R, phase: i64) {
 }
 
 const SYNC_BATCH: u32 = 8;
-type Batch = Arc<std::sync::Mutex<Option<Box<dyn FnOnce() + Send>>>>;
+/// at most this many batches are handed to the second consumer in one case
+const MAX_HANDOFF: u32 = 6;
+type Batch = Arc<std::sync::Mutex<std::collections::VecDeque<Box<dyn FnOnce() + Send>>>>;
+
+/// Consumer side of the hand-off: every other batch goes to the second consumer.
+struct Handoff {
+    on: bool,
+    queue: Batch,
+    given: u32,
+    turn: u32,
+}
+impl Handoff {
+    /// true if the batch was handed over (the caller must not drain it)
+    fn maybe_give<I>(&mut self, p: I) -> Option<I>
+    where
+        I: Iterator + Send + 'static,
+        I::Item: Rec,
+    {
+        self.turn += 1;
+        if !self.on || self.given >= MAX_HANDOFF || self.turn % 2 == 0 {
+            return Some(p);
+        }
+        self.queue.lock().unwrap().push_back(Box::new(move || {
+            for r in p {
+                yielded(&r, 0);
+            }
+        }));
+        vsched::sync_signal(SYNC_BATCH + self.given);
+        self.given += 1;
+        None
+    }
+    /// release the second consumer from the hand-offs that never happened
+    fn finish(&mut self) {
+        if self.on {
+            for i in self.given..MAX_HANDOFF {
+                vsched::sync_signal(SYNC_BATCH + i);
+            }
+            self.given = MAX_HANDOFF;
+        }
+    }
+}
 
 pub fn has_second_consumer(case: &IterCase) -> bool {
     case.handoff && matches!(case.consumer % 5, 0 | 2)
@@ -228,14 +282,14 @@ where
             }
             vsched::ret(c, 0);
             handle_out.send(sigs.handle()).unwrap();
-            if has_second_consumer(case) {
-                let p = sigs.pending();
-                *batch.lock().unwrap() = Some(Box::new(move || {
+            let mut ho = Handoff { on: has_second_consumer(case), queue: batch, given: 0, turn: 0 };
+            // the very first batch always goes over (scanned at a time of the schedule's choosing)
+            if ho.on {
+                if let Some(p) = ho.maybe_give(sigs.pending()) {
                     for r in p {
                         yielded(&r, 0);
                     }
-                }));
-                vsched::sync_signal(SYNC_BATCH);
+                }
             }
             match case.consumer % 5 {
                 4 => loop {
@@ -256,8 +310,10 @@ where
                     let c = vsched::call("wait", 0, 0);
                     let p = sigs.wait();
                     vsched::ret(c, 0);
-                    for r in p {
-                        yielded(&r, 0);
+                    if let Some(p) = ho.maybe_give(p) {
+                        for r in p {
+                            yielded(&r, 0);
+                        }
                     }
                     if sigs.is_closed() {
                         break;
@@ -275,8 +331,10 @@ where
                         let c = vsched::call("pending", 0, 0);
                         let p = sigs.pending();
                         vsched::ret(c, 0);
-                        for r in p {
-                            yielded(&r, 0);
+                        if let Some(p) = ho.maybe_give(p) {
+                            for r in p {
+                                yielded(&r, 0);
+                            }
                         }
                         vsched::body_point(0);
                     }
@@ -301,6 +359,7 @@ where
                     }
                 }
             }
+            ho.finish();
             // after close: whatever is still buffered
             vsched::mark("post-close", 0, 0);
             let c = vsched::call("pending", 2, 0);
@@ -334,6 +393,7 @@ where
         }
         _ => {
             // async-style: SignalDelivery over the harness socket pair + poll_signal
+            let _ = &batch;
             let mut delivery = SignalDelivery::with_pipe(rd, wr, E::default(), &init).expect("with_pipe");
             for s in &init {
                 vsched::mark("add-ret", *s as i64, 1);
@@ -480,7 +540,7 @@ pub fn execute(case: &IterCase) -> (RunResult, CaseReport) {
         }
     };
     let mut bodies: Vec<Box<dyn FnOnce() + Send>> = Vec::new();
-    let batch: Batch = Arc::new(std::sync::Mutex::new(None));
+    let batch: Batch = Arc::new(std::sync::Mutex::new(std::collections::VecDeque::new()));
     {
         let case = case.clone();
         let batch = batch.clone();
@@ -573,12 +633,14 @@ pub fn execute(case: &IterCase) -> (RunResult, CaseReport) {
     if second {
         let batch = batch.clone();
         bodies.push(Box::new(move || {
-            vsched::sync_wait(SYNC_BATCH);
-            let f = batch.lock().unwrap().take();
-            if let Some(f) = f {
-                let c = vsched::call("drain-batch", 0, 0);
-                f();
-                vsched::ret(c, 0);
+            for i in 0..MAX_HANDOFF {
+                vsched::sync_wait(SYNC_BATCH + i);
+                let f = batch.lock().unwrap().pop_front();
+                if let Some(f) = f {
+                    let c = vsched::call("drain-batch", i as i64, 0);
+                    f();
+                    vsched::ret(c, 0);
+                }
             }
         }));
     }
